@@ -1,12 +1,13 @@
 // Driver for C13 (POP3 session = stable snapshot, deletes commit only on QUIT) and the POP3
 // wire part of C02.
 //
-//	sess <mem|file> <init> <events>  =>  <reply> ... S<box>=<handle>:<size>. ...
+//	sess <mem|file>[:<cap>] <init> <events>  =>  <reply> ... S<box>=<handle>:<size>. ...
 //
 // init:   - | box;box..      box = <namehex>:<srchex>.<srchex>..   (messages delivered before the session)
 // events: - | ev,ev,..       c<hex> client bytes (any chunking) | d<name>:<src> delivery |
 //	x<name>:<k> another client removes the k-th message ever delivered to <name> |
-//	p<name> purge | w the client stops reading (every later write fails)
+//	p<name> purge | w the client stops reading (every later write fails) |
+//	t the idle timeout fires | r reading fails (connection reset)
 //
 // The connection ends with EOF after the last event (unless the server closed it before).
 // The real pop3.Server runs the session through the verif entry point VerifServe on a
@@ -17,6 +18,7 @@ package main
 import (
 	"bytes"
 	"encoding/hex"
+	"errors"
 	"fmt"
 	"io"
 	"net/mail"
@@ -198,9 +200,14 @@ func (w *world) project(word string, unit []byte) string {
 
 func newStore(flavour string) (storage.Store, func()) {
 	ext := extension.NewHost()
+	capN := 0
+	if i := strings.IndexByte(flavour, ':'); i >= 0 {
+		capN = vh.AtoI(flavour[i+1:])
+		flavour = flavour[:i]
+	}
 	switch flavour {
 	case "mem":
-		s, err := mem.New(config.Storage{MailboxMsgCap: 0}, ext)
+		s, err := mem.New(config.Storage{MailboxMsgCap: capN}, ext)
 		if err != nil {
 			panic(err)
 		}
@@ -214,7 +221,7 @@ func newStore(flavour string) (storage.Store, func()) {
 		if err != nil {
 			panic(err)
 		}
-		s, err := file.New(config.Storage{Params: map[string]string{"path": dir}, MailboxMsgCap: 0}, ext)
+		s, err := file.New(config.Storage{Params: map[string]string{"path": dir}, MailboxMsgCap: capN}, ext)
 		if err != nil {
 			panic(err)
 		}
@@ -297,6 +304,17 @@ func exec(kind string, in []string) []string {
 				_ = st.PurgeMessages(vh.US(arg))
 			case 'w':
 				conn.breakWrites()
+			case 't', 'r':
+				if conn.isClosed() {
+					continue
+				}
+				var e error = timeoutErr{}
+				if ev[0] == 'r' {
+					e = errors.New("connection reset by peer")
+				}
+				if !conn.failRead(e) {
+					wedged = true
+				}
 			}
 			if wedged {
 				break
